@@ -16,7 +16,7 @@ import (
 // trUnits: the translated functions. Order matters only between packages (a package may use the ones before it).
 var trUnits = []*trUnit{
 	{pkg: "lib/common/date", mod: "Date", funcs: []string{
-		"Date", "StartOf", "EndOf", "Period.Clip", "Period.Contains", "Partition.Contains", "NewPartition",
+		"ParseInterval", "Date", "StartOf", "EndOf", "Period.Clip", "Period.Contains", "Partition.Contains", "NewPartition",
 		"Partition.Size", "Partition.StartDates", "Partition.EndDates", "Partition.Align",
 	}},
 	{pkg: "lib/common/compare", mod: "Compare", funcs: []string{"Time", "Decimal"}},
@@ -25,7 +25,7 @@ var trUnits = []*trUnit{
 		"Account.Segments", "Account.Name", "Account.Type", "Account.IsAL", "Account.IsIE", "Account.Level", "Compare",
 	}},
 	{pkg: "lib/model/posting", mod: "Posting", funcs: []string{"Builder.Build", "Builders.Build", "Compare"}},
-	{pkg: "lib/model/transaction", mod: "Transaction", funcs: []string{"Compare", "Builder.Build"}},
+	{pkg: "lib/model/transaction", mod: "Transaction", funcs: []string{"Compare", "Builder.Build", "expand"}},
 	{pkg: "lib/model/open", mod: "Open", funcs: nil},
 	{pkg: "lib/model/close", mod: "Close", funcs: nil},
 	{pkg: "lib/model/assertion", mod: "Assertion", funcs: nil},
@@ -235,12 +235,32 @@ func (t *trTranslator) translateFunc(f *trFunc) {
 	}
 	addTParams(sig.RecvTypeParams())
 	addTParams(sig.TypeParams())
+	c.opaqueParams = map[types.Object]bool{}
 	addParam := func(v *types.Var, pos token.Pos) {
+		// a parameter whose type is not translatable (the registry, a syntax node) is dropped: it may only occur inside calls of
+		// untranslated functions, whose results are parameters themselves
+		var lt string
+		func() {
+			defer func() {
+				if r := recover(); r != nil {
+					if _, ok := r.(trReject); ok {
+						lt = ""
+						return
+					}
+					panic(r)
+				}
+			}()
+			lt = c.leanType(v.Type(), pos)
+		}()
+		if lt == "" {
+			c.opaqueParams[v] = true
+			return
+		}
 		n := c.local(v)
 		if n == "_" {
 			n = c.fresh("unused")
 		}
-		params = append(params, "("+n+" : "+c.leanType(v.Type(), pos)+")")
+		params = append(params, "("+n+" : "+lt+")")
 	}
 	if sig.Recv() != nil {
 		addParam(sig.Recv(), f.decl.Pos())
@@ -309,7 +329,11 @@ func (t *trTranslator) translateFunc(f *trFunc) {
 	for _, a := range c.aux {
 		b.WriteString(a + "\n")
 	}
-	fmt.Fprintf(&b, "/-- Go: `%s` (%s) -/\n", trSigText(f.decl), t.l.relPos(f.decl.Pos()))
+	extDoc := ""
+	if len(c.externals) > 0 {
+		extDoc = "; results of untranslated calls as parameters: " + strings.Join(c.externals, ", ")
+	}
+	fmt.Fprintf(&b, "/-- Go: `%s` (%s)%s -/\n", trSigText(f.decl), t.l.relPos(f.decl.Pos()), extDoc)
 	fmt.Fprintf(&b, "def %s %s : %s :=\n%s\n", f.leanName, strings.Join(params, " "), ret, term.indent(2).String())
 	f.text = b.String()
 }
